@@ -237,7 +237,7 @@ BUILDER_FAMILY = {
 }
 
 
-def coreobj_pipeline(prop, tier, purpose=None):
+def coreobj_pipeline(prop, tier, purpose=None, terms=None):
     """MC_CoreObj (every call history of one Paseto<V,P> builder object) -> executed on the real object,
     every minted token read back under a matrix of presentations -> CoreObjTrace validation."""
     res = verif.run_tlc("MC_CoreObj.tla", "MC_CoreObj.cfg" if tier == "quick" else "MC_CoreObj_thorough.cfg", workers=8, timeout=1800)
@@ -248,7 +248,8 @@ def coreobj_pipeline(prop, tier, purpose=None):
     bp = os.path.join(verif.WORK, "cobeh_%s_%s.ndjson" % (prop, tier))
     verif.write_ndjson(bp, behs)
     trace = os.path.join(verif.WORK, "cotrace_%s_%s.ndjson" % (prop, tier))
-    verif.run_pv(["run-coreobj", "--behaviours", bp, "--tier", tier, "--seed", str(verif.seed()), "--out", trace], timeout=7200)
+    verif.run_pv(["run-coreobj", "--behaviours", bp, "--tier", tier, "--seed", str(verif.seed()), "--out", trace]
+                 + (["--terms", terms] if terms else []), timeout=7200)
     n, bad, tres = validate_trace("CoreObjTrace.tla", "CoreObjTrace.cfg", trace, timeout=7000)
     violations = []
     nmint = 0
@@ -678,7 +679,9 @@ def check_terms(prop, tier):
     s2 = _summary(out2)
     # "footer segment present iff the footer is non-empty" also for a core builder object that is re-used with
     # another footer (spec/CoreObj.tla histories, footer segment observed after every mint)
-    co = coreobj_pipeline("C08", tier)
+    co = coreobj_pipeline("C08", tier, terms=tp)
+    if co["nmint"] and '"specof"' not in open(os.path.join(verif.WORK, "cotrace_C08_%s.ndjson" % tier)).read(200000):
+        raise ToolError("core-object trace carries no specof field: the C08 comparison did not run")
     viol = s["violations"] + [dict(v, props=["C08"]) for v in s2["violations"]] + co["violations"]
     fresh = verif.report(prop, viol, tier)
     coverage = {
